@@ -250,7 +250,74 @@ pub fn weight_literal_strings() -> Vec<String> {
     v
 }
 
-const SPICE: [&str; 16] = ["é", "€", "😀", "\u{80}", "\u{0}", "\u{301}", "A", "2", "s", ":", "+", "-", ",", " ", ".", "1"];
+const SPICE: [&str; 28] = [
+    "é", "€", "😀", "\u{80}", "\u{0}", "\u{301}", "A", "2", "s", ":", "+", "-", ",", " ", ".", "1",
+    // characters that Unicode-aware classes (\d, \w, case-insensitive matching) accept
+    "\u{0665}", "\u{ff15}", "\u{0966}", "\u{212a}", "\u{017f}", "\u{ff21}", "\u{ff1a}", "\u{ff0b}", "\u{2010}", "\u{ff0c}", "\u{ff0e}", "\u{1d7d8}",
+];
+
+/// look-alikes of a notation character: same class for a Unicode-aware matcher (decimal digits of
+/// other scripts, full-width forms, Kelvin sign / long s which case-fold to K / s, ...)
+pub fn lookalikes(c: char) -> Vec<char> {
+    match c {
+        '0'..='9' => {
+            let d = c as u32 - '0' as u32;
+            [0x0660u32, 0x06f0, 0x0966, 0xff10, 0x1d7d8, 0x0e50].iter().filter_map(|b| char::from_u32(b + d)).collect()
+        }
+        'A'..='Z' => {
+            let mut v = vec![char::from_u32(0xff21 + (c as u32 - 'A' as u32)).unwrap(), c.to_ascii_lowercase()];
+            if c == 'K' {
+                v.push('\u{212a}');
+            }
+            v
+        }
+        'a'..='z' => {
+            let mut v = vec![char::from_u32(0xff41 + (c as u32 - 'a' as u32)).unwrap(), c.to_ascii_uppercase()];
+            if c == 's' {
+                v.push('\u{017f}');
+            }
+            v
+        }
+        ':' => vec!['\u{ff1a}', '\u{fe55}', '\u{a789}'],
+        '+' => vec!['\u{ff0b}', '\u{207a}'],
+        '-' => vec!['\u{2010}', '\u{2212}', '\u{ff0d}', '\u{2013}'],
+        ',' => vec!['\u{ff0c}', '\u{201a}', ';'],
+        '.' => vec!['\u{ff0e}', '\u{3002}', '\u{2024}'],
+        ' ' => vec!['\u{a0}', '\u{2003}', '\t', '\n'],
+        _ => vec![],
+    }
+}
+
+/// every single-character (and, for short bases, double) look-alike substitution in a set of
+/// valid texts covering every token shape and weight form
+pub fn lookalike_strings() -> Vec<String> {
+    let bases = [
+        "AA", "QQ+", "88-66", "JTs", "72o", "A9s+", "AQo-A9o", "AsKs", "Td9d", "AA:0.5", "QQ+:0.25", "88-66:1.0", "JTs:0", "A9s+:1", "AQo-A9o:0.125", "AsKs:0.75", "KQs:0.5,JJ+", "TT+, AA:0.5, 65s", " AKs , 22 ", "K", "s", "Ks",
+    ];
+    let mut v = vec![];
+    for b in bases {
+        let ch: Vec<char> = b.chars().collect();
+        for i in 0..ch.len() {
+            for l in lookalikes(ch[i]) {
+                let mut c = ch.clone();
+                c[i] = l;
+                v.push(c.iter().collect::<String>());
+                if ch.len() <= 10 {
+                    for j in (i + 1)..ch.len() {
+                        for l2 in lookalikes(ch[j]).into_iter().take(2) {
+                            let mut c2 = c.clone();
+                            c2[j] = l2;
+                            v.push(c2.iter().collect::<String>());
+                        }
+                    }
+                }
+            }
+        }
+    }
+    v.sort();
+    v.dedup();
+    v
+}
 
 pub fn mutated_strategy() -> impl Strategy<Value = String> {
     (list_strategy(4), 0usize..64, 0usize..16, 0u8..3, proptest::option::of((0usize..64, 0usize..16))).prop_map(|(l, pos, sp, op, second)| {
@@ -305,6 +372,8 @@ pub fn weight_strategy() -> impl Strategy<Value = String> {
     let shapes = prop_oneof![Just("AA"), Just("QQ+"), Just("88-66"), Just("JTs"), Just("A9s+"), Just("AQo-A9o"), Just("AsKs"), Just("AsAs"), Just("KsAs")];
     let lit = prop_oneof![
         2 => "[01]\\.[0-9]{1,12}",
+        1 => "[01]\\.[0-9]{0,3}\\p{Nd}[0-9]{0,2}",
+        1 => "\\p{Nd}(\\.\\p{Nd}{1,3})?",
         1 => "1\\.0{0,20}[1-9]",
         1 => "0\\.9{1,30}",
         1 => "[01]\\.[0-9]{30,45}",
@@ -334,7 +403,7 @@ pub fn run(ctx: &mut Ctx, mode: Mode) {
     let tier = ctx.tier;
     match mode {
         Mode::Total => {
-            ctx.rule = "strings: (1) every string of length 0-3 (thorough 0-4) over the 29-symbol alphabet ranks + 'shdco+-:.,01' + space + é (2 bytes) + € (3) + 😀 (4); (2) every string matching a token shape with arbitrary ranks - XY, XY+, XYk, XYk+, XY-ZW, XYk-ZWk', all 52x52 card-pair texts incl. both cards equal - without and with ':0.5'; (3) proptest: valid notation with one or two characters inserted/replaced/deleted at any offset (multi-byte, NUL, combining, notation characters), comma lists mixing valid tokens with junk and the degenerate spans '22-AA','KAs+','2As+', arbitrary Unicode, weight literals, over-long inputs (up to 10^5 characters, 10^4 commas, 2,000 tokens). Oracle under catch_unwind: parse as Rank, Suit, Card, CardPair, HandRangeToken, HandRange returns; every Ok value is formatted, expanded, decomposed (rank_pairs, orphan_card_pairs) and drained through FlopExhaustiveEvaluator (alone, beside a fixed player, twice) on the first positions. Non-trivial = accepted by some parser, or contains a multi-byte character, or has a token shape; distinct by string.".into();
+            ctx.rule = "strings: (1) every string of length 0-3 (thorough 0-4) over the 29-symbol alphabet ranks + 'shdco+-:.,01' + space + é (2 bytes) + € (3) + 😀 (4); (2) every string matching a token shape with arbitrary ranks - XY, XY+, XYk, XYk+, XY-ZW, XYk-ZWk', all 52x52 card-pair texts incl. both cards equal - without and with ':0.5'; every single and double substitution of a notation character by a Unicode look-alike of its class (decimal digits of other scripts, full-width forms, Kelvin sign, long s, dashes, ...) in valid texts of every shape and weight form; (3) proptest: valid notation with one or two characters inserted/replaced/deleted at any offset (multi-byte, NUL, combining, notation characters), comma lists mixing valid tokens with junk and the degenerate spans '22-AA','KAs+','2As+', arbitrary Unicode, weight literals, over-long inputs (up to 10^5 characters, 10^4 commas, 2,000 tokens). Oracle under catch_unwind: parse as Rank, Suit, Card, CardPair, HandRangeToken, HandRange returns; every Ok value is formatted, expanded, decomposed (rank_pairs, orphan_card_pairs) and drained through FlopExhaustiveEvaluator (alone, beside a fixed player, twice) on the first positions. Non-trivial = accepted by some parser, or contains a multi-byte character, or has a token shape; distinct by string.".into();
         }
         Mode::Content => {
             ctx.rule = "same string generators as C09 plus every weight literal [01](.d{1,3})? on one token of each shape and generated literals (1.0..01, 0.99.., 40-digit fractions, exponents, NaN/inf). Oracle: every combo of every Ok card pair / token / range has two different cards and a weight w with 0 <= w <= 1; evaluator runs over the parsed ranges (alone, beside a fixed player, the range twice) yield only showdowns with probability in [0,1] and 5+2n pairwise distinct cards. Panics are C09's subject and skipped here. Non-trivial = the string parses to a card pair, token or non-empty range; distinct by string.".into();
@@ -365,6 +434,9 @@ pub fn run(ctx: &mut Ctx, mode: Mode) {
     let shapes = shape_strings(tier == Tier::Thorough);
     let n = shapes.len() as u64;
     ctx.run_enum_brief(StreamCfg::new("shape_strings", CLASSES, n), n, true, |i| shapes[i as usize].clone(), &f, brief);
+    let look = lookalike_strings();
+    let n = look.len() as u64;
+    ctx.run_enum_brief(StreamCfg::new("unicode_lookalikes", CLASSES, n), n, true, |i| look[i as usize].clone(), &f, brief);
     if mode == Mode::Content {
         let w = weight_literal_strings();
         let n = w.len() as u64;
@@ -385,6 +457,9 @@ pub fn run(ctx: &mut Ctx, mode: Mode) {
     ctx.run_random_brief(StreamCfg::new("over_long", CLASSES, c).shrink(60), long_strategy, &f, brief);
     ctx.require_class("over_long", "longer_than_1000_bytes", c / 2);
     ctx.extra.insert("exhaustive_over".into(), json!(format!("all strings of length <= {} over the 29-symbol alphabet; all token-shape strings with arbitrary ranks", maxlen)));
+    if tier == Tier::Thorough && !ctx.failed() {
+        crate::fuzzrun::campaign(ctx, "fz_parse", 60_000, 16, 96);
+    }
 }
 
 pub fn replay(mode: Mode, _stream: &str, path: &str, case: &Value) -> i32 {
